@@ -7,9 +7,12 @@ The model keeps of a document exactly what the traffic path *dereferences* (is t
 optional pointer nil, how many content entries are there) and follows the Go control flow branch by branch;
 every dereference whose guard is not in the code is an explicit `panic` outcome. What the decoders and the
 schema validator answer on concrete bytes (found / decode error / nil value / verdict) are arbitrary
-`Bits`: theorems quantify over all of them, i.e. over all traffic. The schema validator contributes two
-outcomes of its own: `panic` on an unresolved reference and `diverge` on an unguarded reference cycle
-(`Recursion.unguarded_diverges`).
+`Bits`: theorems quantify over all of them, i.e. over all traffic. The schema validator contributes
+outcomes of its own: `panic` on an unresolved reference, `diverge` on an unguarded reference cycle
+(`Recursion.unguarded_diverges`, F-C10-1), `panic` when `deepcopy.Copy` meets a YAML mapping key it cannot copy
+under oneOf/anyOf (F-C10-7). The styled decoder of a query parameter contributes `exhaust` (F-C10-8: an array
+index written in the request decides how many elements are built). An error outcome carries whether its text can
+be produced: `errorText` is `err.Error()`, which panics when the rejected value is not JSON-encodable (F-C10-6).
 -/
 import KinModel.NoPanic.Router
 import KinModel.NoPanic.Recursion
